@@ -78,6 +78,22 @@ func genC13(g *Gen) {
 	nearMiss := []string{"+1", ".5", "5.", "01", "1_0", "-", "--1", "1e", "1e+", "1.e5", "0x10", "1 ", " 1", "Infinity", "NaN", "-Infinity", "inf", "nan",
 		"", "nul", "nulll", "NULL", "true", "false", "\"1\"", "\"1.5\"", "[1]", "[]", "{}", "{\"a\":1}", "1,2", "1e5e5", "00", "-01", "1.2.3", "١", "\x00", "1\x00"}
 	otherTypes := []string{"true", "false", "\"1\"", "\"abc\"", "[1]", "[]", "{}", "{\"a\":1}", "null"}
+	// every way of ending a number wrongly (and a few right ones), after 1, 20 and 40 digits: the parser changes loop once
+	// the digits no longer fit 64 bits, and each loop has its own copy of the syntax checks
+	tails := []string{"", "0", ".5", "e5", "E-5", "e+05", "_1", "_.5", "._5", ".5_5", "e1_0", "e_1", "e+_1", "_e5", "e5_", "__1", "_", "+", "e", "e+", ".", "..", ".e5", "e5.", "e5e5", "-", "x", " ", "e 5", ".5.5"}
+	heads := []string{"1", "12345678901234567890", "1234567890123456789012345678901234567890", "-98765432109876543210987", "0.0000000000000000000001234567890123456789012"}
+	g.gridRun(len(tails)*len(heads), 0.08, func(i int) {
+		s := heads[i/len(tails)] + tails[i%len(tails)]
+		e := Ev{"op": "UnmarshalJSON", "s": ints([]byte(s))}
+		e.setDec("prev", randAny(g.r))
+		g.emit(e)
+		if strings.TrimSpace(s) != s {
+			return // inside a document, white space around a value is part of the document, not of the value
+		}
+		ed := Ev{"op": "UnmarshalDoc", "s": ints([]byte(s))}
+		ed.setDec("prev", randAny(g.r))
+		g.emit(ed)
+	})
 	for !g.w.full() {
 		switch g.r.Intn(10) {
 		case 0, 1, 2, 3:
